@@ -1,37 +1,45 @@
 /-
 C05 — what Fandango generates, Fandango parses back (round trip).
 
-Property theorems only.  Helper lemmas: `Proofs/Enum.lean`, `Proofs/IR.lean`; models: `Model/Enum.lean` (an
-enumerator of the language that follows nothing but the grammar), `Model/IR.lean` (`Valid`, `Lang`),
-`Model/Incremental.lean` (the scanner layer of the parser, used for the two refutations below).
+Property theorems only.  Helper lemmas: `Proofs/Enum.lean`, `Proofs/Scan.lean`, `Proofs/RepCap.lean`, `Proofs/IR.lean`;
+models: `Model/Enum.lean` (an enumerator of the language that follows nothing but the grammar), `Model/IR.lean`
+(`Valid`, `Lang`), `Model/Scan.lean` (the scanners of `iterative_parser.py` as of 1ef12755 — one greedy `re.match`
+length per regex scan, an empty match IS a match (179bde08), literals compared unit by unit, text/bytes/regex only
+at byte boundaries (a33087ac), units above 0xFF have no bits (1ef12755) — and the language the parser is meant to
+accept with them: `accepts`), `Model/RepCap.lean` (the generator's repetition cap).
 
-FULL STATEMENT (`C05_RoundTrip`): for every grammar, every derivation `t` of a non-terminal `s` whose regex
-leaves are the greedy matches at their positions (`regexGreedy`, the decidable side condition "regex
-terminals cannot be split in more than one way between neighbours"), the parser's complete parses of
-`value t` contain a tree with the same value.  It quantifies over a parser model `parseComplete` and needs
-recogniser *completeness* of an Earley model, which nobody has proved here: it stays an OPEN obligation.
+FULL STATEMENT (`C05_RoundTrip acc`): for every grammar and every derivation `t` of a non-terminal `s`
+(`DerNT`: a tree together with, per leaf, the regex terminal it instantiates) that is IN THE CLASS — `inClass`: the
+decidable side condition "regex terminals cannot be split in more than one way between neighbours", made
+precise: every leaf of the witness is exactly what ONE scan of its terminal reads at the column where the
+serialised leaf starts — the parser accepts the serialised word (`acc`).  That the accepted word comes back as a
+tree with the identical serialisation is C04's half (every yielded tree spells the input).
 
 What is proved:
-  * `C05_enum_complete_bounded`: without truncation the enumerator lists every derivation within its bounds
-    (depth, repetition counts, regex instances), stated against a declarative relation `DerNT`;
-  * `C05_enum_sound` / `C05_roundtrip_partial`: every word the independent enumerator hands to the real
-    parser comes with a machine-checked derivation witness (`Valid`, in `Lang`, tags naming regexes that
-    accept their leaves) — so "a word of the language the real parser rejects" is a verified statement about
-    the grammar, and only the parser side of the round trip rests on the differential check;
-  * the full statement is FALSE of the scanner as it is written, on two concrete witnesses
-    (`C05_empty_regex_counterexample`, `C05_nonascii_text_counterexample`), both replayed on /repo by the
-    harness (open findings `C05/empty-matching-regex`, `C05/nonascii-text-next-to-binary`);
-  * the repetition cap (§5, `Model/RepCap.lean`): the generator caps every open-ended repetition at the grammar's
-    current cap `c`, the parser compiles `{n,}` (not `*`, `+`) with the cap `c0` it read when it was built.
-    `C05_generated_within_parser_cap`: while `c ≤ c0` every derivation the generator can produce is a derivation
-    of the language the parser's helper rules spell out, which is inside the documented language
-    (`C05_parser_cap_within_language`); `C05_open_repetition_cap_counterexample`: once the tuner has raised
-    `c` above `c0` (20 → 30) this fails — 21 iterations of `("a"){2,}` are generated and documented, and outside
-    the parser's language, while the same word is inside it for `"a"+`.  Replayed on /repo by the harness (open
-    finding `C05/open-repetition-capped`; the witness class is decided by `capValid`, `C05_capValid_iff`).
+  * `C05_enum_sound` / `C05_enum_word_in_lang` / `C05_enum_checked` / `C05_enum_is_bounded_derivation`: every word
+    the independent enumerator hands to the real parser comes with a machine-checked derivation witness
+    (`Valid`, in `Lang`, `DerNT`, tags naming regexes that accept their leaves); `C05_enum_complete_bounded`:
+    without truncation it lists every derivation within its bounds;
+  * `C05_parser_language_iff`: the recogniser `accepts` (what the driver runs next to the real parser on every
+    word) accepts exactly the words for which the grammar has an expansion that the scanners read from the
+    first to the last column;
+  * `C05_roundtrip_partial`: `C05_RoundTrip` holds with `acc := accepts` — PARTIAL because `accepts` is the
+    language-level model of the parser (grammar + the code's scanners), not the Earley machine: that
+    predict/complete/column bookkeeping (`Model/Earley.lean`, C04/C06) computes this language is NOT proved; it
+    is checked on every run, both ways, by comparing `accepts` with the real `Fandango.parse` on every word;
+  * `C05_untagged_in_class`: the walk the driver runs on trees of the real generator (which carry no tags) is
+    conservative: it implies `inClass` for every tagging consistent with `re.fullmatch`;
+  * current-code witnesses (`decide +kernel`, each replayed on /repo by the harness as a corner spec):
+    `C05_empty_regex_parsed` (F10a repaired: `r"[0-9]*" "x"` reads "x"), `C05_regex_split_outside_class`
+    (`r"[0-9]*" r"[0-9]+"` on "0": in `Lang`, witness not in the class — fails at a REGEX leaf — and rejected),
+    `C05_nonascii_text_counterexample` (open finding F10b: `b"\xff" "é"` is written FF C3 A9, the witness fails
+    at a LITERAL leaf, FF C3 A9 is rejected and FF E9 accepted);
+  * the repetition cap (§5, `Model/RepCap.lean`): the generator caps every open-ended repetition at the
+    grammar's current cap, the parser (since b48dd899) accepts the uncapped language.
+    `C05_generated_within_language`, `C05_generator_cap_monotone`, `C05_open_repetition_parsed`.
 -/
 import Proofs.Enum
-import Proofs.Incremental
+import Proofs.Scan
 import Proofs.RepCap
 import Proofs.IRFast
 namespace FV
@@ -108,30 +116,95 @@ theorem C05_bounded_derivation_valid (G : Grammar) (R : RegexOracle) (inst : Ins
   obtain ⟨h1, _, _, h4⟩ := C05_enum_sound G R inst hI c none 0 d s t tags hm
   exact ⟨h1, h4⟩
 
-/-! ## 2. the round trip: statement, and the half that is proved -/
+/-- everything the enumerator lists (with any truncation and rotation) is a bounded derivation `DerNT` -/
+theorem C05_enum_is_bounded_derivation (G : Grammar) (inst : Inst) (c : Nat) (lim : Option Nat) (rot d : Nat)
+    (s : String) (t : Tree) (tags : List (Option Nat)) (h : (t, tags) ∈ enumTrees G inst c lim rot d s) :
+    DerNT G inst c d s none none ([t], tags) := by
+  unfold enumTrees at h
+  rw [List.mem_filterMap] at h
+  obtain ⟨f, hf, hm⟩ := h
+  have hd := Scan.enumNT_der G d s none none f hf
+  obtain ⟨ts, tg⟩ := f
+  cases ts with
+  | nil => simp at hm
+  | cons t' rest =>
+    cases rest with
+    | nil =>
+      simp only [Option.some.injEq, Prod.mk.injEq] at hm
+      obtain ⟨rfl, rfl⟩ := hm
+      exact hd
+    | cons _ _ => simp at hm
 
-/-- THE FULL STATEMENT, for a parser model `parse G R Rg binary s word` (complete parses of the serialised
-    word): every derivation whose regex leaves are greedy matches is found again, up to its value. -/
-def C05_RoundTrip
-    (parse : Grammar → RegexOracle → (Nat → List Nat → Option Nat) → Bool → String → List Nat → List Tree)
-    (serialise : Bool → TV → Option (List Nat)) : Prop :=
-  ∀ (G : Grammar) (R : RegexOracle) (Rg : Nat → List Nat → Option Nat) (binary : Bool) (s : String)
-    (t : Tree) (tags : List (Option Nat)) (v : TV) (word : List Nat),
-    Valid G R t → t.sym = .nt s → tagOK R t.leaves tags → t.value = .ok v → serialise binary v = some word →
-    regexGreedy Rg binary word t.leaves tags 0 = true →
-    ∃ t' ∈ parse G R Rg binary s word, t'.value = .ok v
+end Enum
 
-/-- What is proved of the round trip: its hypotheses are met by everything the enumerator produces — each
-    enumerated word is in `Lang`, with a `Valid` witness and well-formed tags.  (The conclusion, "the parser
-    finds it", is the open half.) -/
-theorem C05_roundtrip_partial (G : Grammar) (R : RegexOracle) (inst : Inst) (hI : InstOK R inst)
-    (c : Nat) (lim : Option Nat) (rot d : Nat) (s : String) (t : Tree) (tags : List (Option Nat))
-    (h : (t, tags) ∈ enumTrees G inst c lim rot d s) :
-    Valid G R t ∧ t.sym = .nt s ∧ tagOK R t.leaves tags ∧ (∀ v, t.value = .ok v → Lang G R s v) := by
-  obtain ⟨h1, h2, _, h4⟩ := C05_enum_sound G R inst hI c lim rot d s t tags h
-  exact ⟨h1, h2, h4, fun v hv => C05_enum_word_in_lang G R inst hI c lim rot d s t tags h v hv⟩
+/-! ## 2. the round trip -/
+
+namespace Scan
+open Enum
+
+/-- THE FULL STATEMENT, for an acceptance function `acc G inp c d s` of the parser ("the parse of the word `inp`
+    from `<s>` yields a tree"; `c`, `d`: bounds on repetition counts / nesting the parser may assume, the real
+    parser has none): every derivation in the class is accepted. -/
+def C05_RoundTrip (acc : Grammar → Inp → Nat → Nat → String → Bool) : Prop :=
+  ∀ (G : Grammar) (inst : Inst) (c d c' d' : Nat) (s : String) (a r : Option String) (t : Tree)
+    (tags : List (Option Nat)) (inp : Inp) (binary : Bool),
+    DerNT G inst c d s a r ([t], tags) → c ≤ c' → d ≤ d' → inClass inp binary t.leaves tags = true →
+    acc G inp c' d' s = true
+
+/-- the parser-language model accepts exactly the words for which the grammar has an expansion (nesting `≤ d`,
+    repetition counts `≤ c`) that the scanners of the code read from column 0 to the last column -/
+theorem C05_parser_language_iff (G : Grammar) (inp : Inp) (c d : Nat) (s : String) :
+    accepts G inp c d s = true ↔ ∃ w, ExpNT G c d s w ∧ scanAll inp w 0 = some inp.ncols :=
+  accepts_iff G inp c d s
+
+/-- a witness in the class is read by the scanners over the whole word -/
+theorem C05_inClass_scanned (inp : Inp) (binary : Bool) (leaves : List Leaf) (tags : List (Option Nat))
+    (h : inClass inp binary leaves tags = true) : scanAll inp (termsOf leaves tags) 0 = some inp.ncols := by
+  simp only [inClass, Bool.and_eq_true, Option.isNone_iff_eq_none, beq_iff_eq] at h
+  obtain ⟨n, hn, hs⟩ := firstFail_scanAll inp binary leaves tags 0 0 h.1
+  rw [h.2, Option.some.injEq] at hn
+  simpa [hn] using hs
+
+/-- THE ROUND TRIP for the parser-language model (partial: see the header — the Earley machine is tied to
+    `accepts` by the differential check, not by proof). -/
+theorem C05_roundtrip_partial : C05_RoundTrip accepts := by
+  intro G inst c d c' d' s a r t tags inp binary hder hc hd hin
+  obtain ⟨hexp, _⟩ := derNT_exp G hc d d' hd s a r ([t], tags) hder
+  have e : fterms ([t], tags) = termsOf t.leaves tags := by simp [fterms, Tree.leavesL]
+  rw [e] at hexp
+  exact (accepts_iff G inp c' d' s).mpr ⟨_, hexp, C05_inClass_scanned inp binary t.leaves tags hin⟩
+
+/-- … in particular for everything the enumerator hands to the real parser -/
+theorem C05_roundtrip_enumerated_partial (G : Grammar) (inst : Inst) (c : Nat) (lim : Option Nat) (rot d : Nat)
+    (s : String) (t : Tree) (tags : List (Option Nat)) (h : (t, tags) ∈ enumTrees G inst c lim rot d s)
+    (c' d' : Nat) (hc : c ≤ c') (hd : d ≤ d') (inp : Inp) (binary : Bool)
+    (hin : inClass inp binary t.leaves tags = true) : accepts G inp c' d' s = true :=
+  C05_roundtrip_partial G inst c d c' d' s none none t tags inp binary
+    (C05_enum_is_bounded_derivation G inst c lim rot d s t tags h) hc hd hin
+
+/-- trees of the real generator carry no tags: the walk without tags (`firstFailU`, run by the driver with
+    `re.fullmatch` as `full`) implies the side condition for every tagging that only names regexes matching
+    their leaf as a whole -/
+theorem C05_untagged_in_class (inp : Inp) (binary : Bool) (full : Nat → Leaf → Bool) (ids : List Nat)
+    (leaves : List Leaf) (tags : List (Option Nat))
+    (h : firstFailU inp binary full ids leaves 0 0 = none) (hl : lenSum binary leaves = some inp.ncols)
+    (ht : TagsIn full ids leaves tags) : inClass inp binary leaves tags = true := by
+  simp only [inClass, Bool.and_eq_true, Option.isNone_iff_eq_none, beq_iff_eq]
+  exact ⟨firstFailU_firstFail inp binary full ids leaves tags 0 0 h ht, hl⟩
 
 /-! ## 3. non-vacuity -/
+
+/-- greedy digit run at unit `w` (`re.match(r"[0-9]*", word[w:])`) -/
+def digitRun (cells : List Nat) (w : Nat) : Nat := ((cells.drop w).takeWhile (fun c => 48 ≤ c && c ≤ 57)).length
+
+/-- regex 0 = `[0-9]*`, regex 1 = `[0-9]+` -/
+def digitsInp (cells : List Nat) : Inp :=
+  ⟨cells, fun id w => if id = 0 then some (digitRun cells w)
+                      else if id = 1 then (if digitRun cells w = 0 then none else some (digitRun cells w)) else none⟩
+
+end Scan
+
+namespace Enum
 
 /-- `<start> ::= r"[0-9]*" "x"{1,2}` with the regex instances "", "12" -/
 def exG : Grammar := ⟨[("<start>", .cat "c0" [.term (.regex 0),
@@ -161,7 +234,8 @@ theorem C05_enum_example :
     rcases hl with rfl | rfl <;> decide
   · simp at hl
 
-/-- non-vacuity of `C05_enum_complete_bounded`: "12xx" has a bounded derivation, hence is enumerated -/
+/-- non-vacuity of `C05_enum_complete_bounded` and of the hypotheses of `C05_roundtrip_partial`: "12xx" has a
+    bounded derivation -/
 theorem C05_complete_example :
     DerNT exG exInst 3 2 "<start>" none none
       ([Tree.node "<start>" [Tree.leaf (.text [49, 50]), Tree.leaf (.text [120]), Tree.leaf (.text [120])]],
@@ -173,70 +247,98 @@ theorem C05_complete_example :
     ⟨.text [49, 50], by simp [exInst], rfl⟩, ?_, rfl⟩
   refine ⟨([Tree.leaf (.text [120]), Tree.leaf (.text [120])], [none, none]), ([], []),
     ⟨2, by omega, by decide, ?_⟩, rfl, rfl⟩
-  simp only [PowR, DerWith]
+  simp only [PowR]
   exact ⟨([Tree.leaf (.text [120])], [none]), ([Tree.leaf (.text [120])], [none]), rfl,
     ⟨([Tree.leaf (.text [120])], [none]), ([], []), rfl, rfl, rfl⟩, rfl⟩
 
-/-- greedy digit run (`re.match(r"[0-9]*", rest)`) -/
-def digitsStar : Nat → List Nat → Option Nat :=
-  fun _ z => some (z.takeWhile (fun c => 48 ≤ c && c ≤ 57)).length
-
-/-- `regexGreedy` separates the stated class from what is outside it: the witness of "12x" is greedy; the
-    witness of "12" = "1"·"2" for `r"[0-9]*" r"[0-9]*"` is not (the first regex would take both digits) -/
-theorem C05_regexGreedy_example :
-    regexGreedy digitsStar false [49, 50, 120] [.text [49, 50], .text [120]] [some 0, none] 0 = true ∧
-    regexGreedy digitsStar false [120] [.text [], .text [120]] [some 0, none] 0 = true ∧
-    regexGreedy digitsStar false [49, 50] [.text [49], .text [50]] [some 0, some 0] 0 = false := by
-  decide
-
 end Enum
 
-/-! ## 4. the round trip is false of the scanner as written: two concrete witnesses -/
-
-namespace Incr
+namespace Scan
 open Enum
 
-/-- the oracle of `r"[0-9]*"` as `Terminal.check` sees it -/
-def digitsStarOracle : ROracle where
-  full := fun _ z => some (z.takeWhile (fun c => 48 ≤ c && c ≤ 57)).length
-  part := fun _ z => if z.all (fun c => 48 ≤ c && c ≤ 57) then some z.length else none
-
-/-- (i) `<start> ::= r"[0-9]*" "x"`: the word "x" is in the language (verified witness: empty regex leaf, then
-    "x"), "12x" is parsed, but on "x" `scan_regex` turns the 0-length match into "no match" and nothing is
-    parsed. -/
-theorem C05_empty_regex_counterexample :
-    validB ⟨[("<start>", .cat "c" [.term (.regex 0), .term (.lit (.text [120]))])]⟩ exR
-      (.node "<start>" [Tree.leaf (.text []), Tree.leaf (.text [120])]) = true ∧
-    (Tree.node "<start>" [Tree.leaf (.text []), Tree.leaf (.text [120])]).value = .ok ⟨.text [120], []⟩ ∧
-    (completeParses linEngine
-      (feed linEngine digitsStarOracle .text (linStart [[.regex 0, .lit [120]]]) [49, 50, 120])).length = 1 ∧
-    completeParses linEngine
-      (feed linEngine digitsStarOracle .text (linStart [[.regex 0, .lit [120]]]) [120]) = [] := by
+/-- the witness of "12xx" is in the class and the model accepts the word; `inClass` separates: the witness
+    "1"·"2" of "12" for `r"[0-9]*" r"[0-9]*"` is not in the class (the first regex reads both digits), and it
+    fails at leaf 0, a regex leaf -/
+theorem C05_inClass_example :
+    inClass (digitsInp [49, 50, 120, 120]) false [.text [49, 50], .text [120], .text [120]] [some 0, none, none] = true ∧
+    accepts exG (digitsInp [49, 50, 120, 120]) 3 2 "<start>" = true ∧
+    accepts exG (digitsInp [49, 50, 120, 120, 120]) 3 2 "<start>" = false ∧
+    firstFail (digitsInp [49, 50]) false [.text [49], .text [50]] [some 0, some 0] 0 0 = some (0, true) := by
   refine ⟨by decide +kernel, by decide +kernel, by decide +kernel, by decide +kernel⟩
 
-/-- no regex terminals -/
-def noRegexO : ROracle := ⟨fun _ _ => none, fun _ _ => none⟩
+/-! ## 4. the current code on the three classes the check was written around -/
 
-/-- (ii) `<start> ::= b"\xff" "é"`: the derivation serialises to FF C3 A9 (UTF-8), but the scanner compares the
-    text literal with the input unit by unit (Latin-1), so FF C3 A9 is rejected while FF E9 — which no tree of
-    the grammar serialises to — is accepted. -/
+/-- (i) `<start> ::= r"[0-9]*" "x"` (finding F10a, repaired by 179bde08): the word "x" — empty regex leaf, then
+    "x" — is in the class and accepted; before the repair `scan_regex` turned the 0-length match into "no
+    match". -/
+theorem C05_empty_regex_parsed :
+    validB ⟨[("<start>", .cat "c" [.term (.regex 0), .term (.lit (.text [120]))])]⟩ exR
+      (.node "<start>" [Tree.leaf (.text []), Tree.leaf (.text [120])]) = true ∧
+    inClass (digitsInp [120]) false [.text [], .text [120]] [some 0, none] = true ∧
+    accepts ⟨[("<start>", .cat "c" [.term (.regex 0), .term (.lit (.text [120]))])]⟩ (digitsInp [120]) 0 1 "<start>"
+      = true := by
+  refine ⟨by decide +kernel, by decide +kernel, by decide +kernel⟩
+
+/-- `<start> ::= r"[0-9]*" r"[0-9]+"` -/
+def splitG : Grammar := ⟨[("<start>", .cat "c" [.term (.regex 0), .term (.regex 1)])]⟩
+def splitR : RegexOracle := fun id l => match l with
+  | .text s => s.all (fun c => 48 ≤ c && c ≤ 57) && (id == 0 || (id == 1 && !s.isEmpty))
+  | _ => false
+
+/-- (ii) OUTSIDE THE CLASS: `r"[0-9]*" r"[0-9]+"` on "0".  The word is in the language (the enumerator lists
+    the witness ""·"0", the verified checker accepts it), but the one length `re.match` prefers for `[0-9]*` at
+    column 0 is 1, not 0: the witness fails the side condition at leaf 0, a REGEX leaf, and the word is not in
+    the parser's language — `Fandango.parse("0")` yields nothing.  Not a violation of C05 as stated (the regex
+    terminals of this grammar can be split in more than one way); "00" (witness "0"·"0") likewise, while
+    "0"·"" for `r"[0-9]+" r"[0-9]*"` is in the class and accepted. -/
+theorem C05_regex_split_outside_class :
+    (enumTrees splitG (fun id => if id = 0 then [.text []] else [.text [48]]) 0 (some 10) 0 1 "<start>").map
+      (fun p => (p.1.leaves, p.2, validB splitG splitR p.1)) = [([.text [], .text [48]], [some 0, some 1], true)] ∧
+    firstFail (digitsInp [48]) false [.text [], .text [48]] [some 0, some 1] 0 0 = some (0, true) ∧
+    accepts splitG (digitsInp [48]) 0 1 "<start>" = false ∧
+    accepts splitG (digitsInp [48, 48]) 0 1 "<start>" = false ∧
+    inClass (digitsInp [48]) false [.text [48], .text []] [some 1, some 0] = true ∧
+    accepts ⟨[("<start>", .cat "c" [.term (.regex 1), .term (.regex 0)])]⟩ (digitsInp [48]) 0 1 "<start>" = true := by
+  refine ⟨by decide +kernel, by decide +kernel, by decide +kernel, by decide +kernel, by decide +kernel,
+    by decide +kernel⟩
+
+/-- no regex terminals -/
+def noRegexInp (cells : List Nat) : Inp := ⟨cells, fun _ _ => none⟩
+
+/-- `<start> ::= b"\xff" "é"` -/
+def nonasciiG : Grammar :=
+  ⟨[("<start>", .cat "c" [.term (.lit (.bytes [255])), .term (.lit (.text [233]))])]⟩
+
+/-- (iii) INSIDE THE CLASS, VIOLATED (open finding F10b): `<start> ::= b"\xff" "é"`.  The derivation serialises
+    to FF C3 A9 (UTF-8), but the scanner compares the text literal with the input unit by unit (Latin-1): the
+    witness fails at leaf 1, a LITERAL leaf — the parser does not read back what the generator wrote — and
+    FF C3 A9 is rejected, while FF E9, which no tree of the grammar serialises to, is accepted. -/
 theorem C05_nonascii_text_counterexample :
     (Tree.node "<start>" [Tree.leaf (.bytes [255]), Tree.leaf (.text [233])]).value
       = .ok ⟨.bytes [255, 195, 169], []⟩ ∧
-    completeParses linEngine
-      (feed linEngine noRegexO .bytes (linStart [[.lit [255], .lit [233]]]) [255, 195, 169]) = [] ∧
-    (completeParses linEngine
-      (feed linEngine noRegexO .bytes (linStart [[.lit [255], .lit [233]]]) [255, 233])).length = 1 := by
-  refine ⟨by decide +kernel, by decide +kernel, by decide +kernel⟩
+    firstFail (noRegexInp [255, 195, 169]) true [.bytes [255], .text [233]] [none, none] 0 0 = some (1, false) ∧
+    accepts nonasciiG (noRegexInp [255, 195, 169]) 0 1 "<start>" = false ∧
+    accepts nonasciiG (noRegexInp [255, 233]) 0 1 "<start>" = true := by
+  refine ⟨by decide +kernel, by decide +kernel, by decide +kernel, by decide +kernel⟩
 
-end Incr
+/-- bits: `<start> ::= 0 1 0 0 0 0 0 1 "b"` reads "Ab"; a text literal is not read in the middle of a byte
+    (a33087ac): `0 "a" …` on 30 80 is rejected although bit 0 and then the bits of "a" are there -/
+theorem C05_bits_example :
+    accepts ⟨[("<start>", .cat "c" [.term (.lit (.bit false)), .term (.lit (.bit true)), .term (.lit (.bit false)),
+      .term (.lit (.bit false)), .term (.lit (.bit false)), .term (.lit (.bit false)), .term (.lit (.bit false)),
+      .term (.lit (.bit true)), .term (.lit (.text [98]))])]⟩ (noRegexInp [65, 98]) 0 1 "<start>" = true ∧
+    accepts ⟨[("<start>", .cat "c" [.term (.lit (.bit false)), .term (.lit (.text [97]))])]⟩
+      (noRegexInp [48, 128]) 0 1 "<start>" = false := by
+  refine ⟨by decide +kernel, by decide +kernel⟩
 
-/-! ## 5. the repetition cap: generator language vs parser language vs documented language -/
+end Scan
+
+/-! ## 5. the repetition cap: generator language vs the language the parser is compiled for -/
 
 namespace RepCap
 
 /-- the decision procedure the driver runs: is the tree a derivation once the selected open-ended repetitions
-    are capped at `c`? -/
+    are capped at `c`?  (`selAll`: what the generator can produce with cap `c`) -/
 def capValid (sel : Sel) (c : Nat) (G : Grammar) (R : RegexOracle) (t : Tree) : Bool :=
   validFast (capGrammar sel c G) R t
 
@@ -244,43 +346,40 @@ theorem C05_capValid_iff (sel : Sel) (c : Nat) (G : Grammar) (R : RegexOracle) (
     capValid sel c G R t = true ↔ Valid (capGrammar sel c G) R t :=
   validFast_iff (capGrammar sel c G) R t
 
-/-- While the generator's cap `c` does not exceed the cap `c0` the parser was compiled with, everything the
-    generator can derive (all open-ended repetitions `≤ c`) is a derivation of the parser's language (`{n,}`
-    bounded by `c0`, `*` and `+` unbounded). -/
-theorem C05_generated_within_parser_cap (G : Grammar) (R : RegexOracle) (c c0 : Nat) (h : c ≤ c0) (t : Tree)
-    (hv : Valid (capGrammar selAll c G) R t) : Valid (capGrammar selBraces c0 G) R t :=
-  valid_mono G R (fun _ _ => ⟨rfl, h⟩) t hv
-
-/-- the parser's language and the generator's language are inside the documented (uncapped) language -/
-theorem C05_parser_cap_within_language (G : Grammar) (R : RegexOracle) (sel : Sel) (c : Nat) (t : Tree)
+/-- Whatever the cap, everything the generator can derive (all open-ended repetitions `≤ c`) is a derivation of
+    the grammar itself — the language the parser is compiled for since b48dd899 (`{n,}` = n iterations and a
+    right-recursive tail, like `*` and `+`). -/
+theorem C05_generated_within_language (G : Grammar) (R : RegexOracle) (sel : Sel) (c : Nat) (t : Tree)
     (hv : Valid (capGrammar sel c G) R t) : Valid G R t := by
   have := valid_mono G R (sel := sel) (sel' := selNone) (c := c) (c' := 0)
     (fun k hk => by simp [selNone] at hk) t hv
   rwa [capGrammar_none] at this
 
-/-- `<start> ::= ("a"){2,} "b"` and `<start> ::= "a"+ "b"` -/
+/-- the tuner raising the cap only adds derivations -/
+theorem C05_generator_cap_monotone (G : Grammar) (R : RegexOracle) (c c' : Nat) (h : c ≤ c') (t : Tree)
+    (hv : Valid (capGrammar selAll c G) R t) : Valid (capGrammar selAll c' G) R t :=
+  valid_mono G R (fun _ _ => ⟨rfl, h⟩) t hv
+
+/-- `<start> ::= ("a"){2,} "b"` -/
 def capG : Grammar := ⟨[("<start>", .cat "c0" [.rep "r0" .braces (.term (.lit (.text [97]))) 2 none,
-  .term (.lit (.text [98]))])]⟩
-def capGplus : Grammar := ⟨[("<start>", .cat "c0" [.rep "r0" .plus (.term (.lit (.text [97]))) 1 none,
   .term (.lit (.text [98]))])]⟩
 def noRe : RegexOracle := fun _ _ => false
 /-- `k` iterations: `a`×k `b` -/
 def capTree (k : Nat) : Tree :=
   .node "<start>" (List.replicate k (Tree.leaf (.text [97])) ++ [Tree.leaf (.text [98])])
 
-/-- non-vacuity of `C05_generated_within_parser_cap` (20 iterations, caps 20/20), and its failure once the tuner
-    has raised the generator's cap to 30 while the parser still has 20: the tree with 21 iterations is a
-    derivation of the grammar, the generator can produce it, the parser's language does not contain it — and
-    does contain the same word when the rule is written with `+`. -/
-theorem C05_open_repetition_cap_counterexample :
-    capValid selAll 20 capG noRe (capTree 20) = true ∧ capValid selBraces 20 capG noRe (capTree 20) = true ∧
+/-- 21 iterations of `("a"){2,}`: a derivation of the grammar; the generator produces it with cap 30 (after the
+    tuner has raised it), not with cap 20; the parser-language model accepts the word whatever the cap was when
+    the parser was built — and so does the real parser since b48dd899 (the harness feeds cap+1 and 2·cap+3
+    iterations; before, `{n,}` was compiled with the cap as upper bound and this word was rejected: finding
+    F38, fixed). -/
+theorem C05_open_repetition_parsed :
     validFast capG noRe (capTree 21) = true ∧
     capValid selAll 30 capG noRe (capTree 21) = true ∧
-    capValid selBraces 20 capG noRe (capTree 21) = false ∧
-    capValid selBraces 20 capGplus noRe (capTree 21) = true ∧
-    capValid selAll 20 capGplus noRe (capTree 21) = false := by
-  refine ⟨by decide +kernel, by decide +kernel, by decide +kernel, by decide +kernel, by decide +kernel,
-    by decide +kernel, by decide +kernel⟩
+    capValid selAll 20 capG noRe (capTree 21) = false ∧
+    Scan.accepts capG (Scan.noRegexInp (List.replicate 21 97 ++ [98])) 21 1 "<start>" = true ∧
+    Scan.accepts capG (Scan.noRegexInp [97, 98]) 21 1 "<start>" = false := by
+  refine ⟨by decide +kernel, by decide +kernel, by decide +kernel, by decide +kernel, by decide +kernel⟩
 
 end RepCap
 end FV
